@@ -44,7 +44,7 @@ REGISTRY = dict(
 )
 
 HEADER = """From Coq Require Import List ZArith Bool String.
-From SB3V Require Import Model.JsonCodec.
+From SB3V Require Import Model.JsonCodec Model.SaveLoad.
 Import ListNotations.
 Local Open Scope Z_scope.
 """
@@ -125,6 +125,12 @@ def build_key(ks):
         return None, "KNone"
     if k == "tuple":
         return (int(ks[1]), 0), f"(KOther {coq_Z(ks[1])})"
+    if k == "mystr":      # an instance of a str subclass as key: json writes its text, a plain str comes back
+        return MyStr(ks[1]), f'(KSub 3 "{ks[1]}"%string)'
+    if k == "npstr":
+        import numpy as np
+
+        return np.str_(ks[1]), f'(KSub 4 "{ks[1]}"%string)'
     raise ValueError(ks)
 
 
@@ -152,10 +158,10 @@ def gen_spec(rng, depth):
     if u < 0.78:
         return ["tuple", [gen_spec(rng, depth - 1) for _ in range(rng.randint(0, 3))]]
     items, seen = [], set()
-    kinds = rng.choice([["str"], ["str"], ["str", "int"], ["int"], ["str", "none"], ["bool"], ["float", "str"], ["str", "tuple"]])
+    kinds = rng.choice([["str"], ["str"], ["str", "int"], ["int"], ["str", "none"], ["bool"], ["float", "str"], ["str", "tuple"], ["mystr"], ["npstr", "int"]])
     for _ in range(rng.randint(0, 3)):
         kk = rng.choice(kinds)
-        payload = rng.choice(["k", "pi", "vf", "n", "k", "pi", "vf", "n", ":type:", ":serialized:"]) if kk == "str" else (rng.random() < 0.5 if kk == "bool" else rng.randint(0, 5))
+        payload = rng.choice(["k", "pi", "vf", "n", "k", "pi", "vf", "n", ":type:", ":serialized:"]) if kk == "str" else rng.choice(["pi", "vf"]) if kk in ("mystr", "npstr") else (rng.random() < 0.5 if kk == "bool" else rng.randint(0, 5))
         if (kk, payload) in seen:
             continue
         seen.add((kk, payload))
@@ -244,45 +250,62 @@ def run_codec(case):
         cdiff = [] if back2[first] == ("custom", 1) and type(back2[first]) is tuple else [f"{first}: custom object not used"]
         for name in d:
             if name != first:
-                deep_same(d[name], back2[name], name, cdiff)
+                if name not in back2:
+                    cdiff.append(f"{name}: attribute dropped by json_to_data")
+                else:
+                    deep_same(d[name], back2[name], name, cdiff)
     except Exception as e:
         cdiff = [f"json_to_data(custom_objects) raises {type(e).__name__}: {e}"]
     raw = json.loads(js)
     plain = [not (isinstance(raw[name], dict) and ":serialized:" in raw[name]) for name, _ in case["items"]]
     diffs = []
-    if list(back.keys()) != list(d.keys()):
-        diffs.append(f"attribute names {list(d)} became {list(back)}")
-    else:
-        for name in d:
+    for name in d:
+        if name not in back:
+            diffs.append(f"{name}: attribute dropped by json_to_data")
+        else:
             deep_same(d[name], back[name], name, diffs)
+    if [k for k in back if k in d] != [k for k in d if k in back] or any(k not in d for k in back):
+        diffs.append(f"?: attribute names {list(d)} became {list(back)}")
     return {"plain": plain, "diffs": diffs, "cdiffs": cdiff, "expr": expr}
 
 
 RESERVED_KEY_SIG = "dict-attribute-with-reserved-serialized-key-not-restored"
 
 
-def has_reserved_key(case):
-    """precise predicate of a known failing class: an attribute whose value is a dict with the first-level string key
+def reserved_key_attrs(case):
+    """precise predicate of a known failing class: the attributes whose value is a dict with the first-level string key
     ':serialized:' - json_to_data takes any such dict for a cloudpickled blob (and data_to_json's informational copy of a
     pickled dict overwrites the real blob under that key)"""
-    return any(spec[0] == "dict" and any(ks[0] == "str" and ks[1] == ":serialized:" for ks, _ in spec[1]) for _, spec in case["items"])
+    return {name for name, spec in case["items"] if spec[0] == "dict" and any(ks[0] == "str" and ks[1] == ":serialized:" for ks, _ in spec[1])}
 
 
 def compare_codec(case, impl, mv):
     probs = []
-    if has_reserved_key(case):
-        if "crash" in impl or impl["diffs"]:
-            return [(RESERVED_KEY_SIG, "a dict attribute with the key ':serialized:' is not restored: " + (impl.get("crash") or "; ".join(impl["diffs"][:2])))]
-        return []
+    bad_attrs = reserved_key_attrs(case)
     if "crash" in impl:
-        # (repaired in /repo by 90ec19a: a dict attribute with a tuple key made data_to_json raise; corpus-tuple-key-save-raises keeps the input)
+        # a crash has no attribute name: known only when the history is in the class; the same items without the offending attributes are re-run
+        if bad_attrs and "retry" not in case:
+            sub = {"kind": "codec", "items": [it for it in case["items"] if it[0] not in bad_attrs], "retry": True, "id": case.get("id")}
+            probs.append((RESERVED_KEY_SIG, "a dict attribute with the key ':serialized:' is not restored: " + impl["crash"]))
+            if sub["items"]:
+                im2 = run_codec(sub)
+                if "crash" in im2 or im2["diffs"] or im2.get("cdiffs"):
+                    probs.append(("oracle-json-codec-alters-attribute", "without the ':serialized:' attributes: " + (im2.get("crash") or "; ".join((im2["diffs"] + im2.get("cdiffs", []))[:3]))))
+            return probs
         return [("oracle-json-codec-raises", impl["crash"])]
+    if bad_attrs:
+        mine = lambda x: x.split(":")[0].split("[")[0] in bad_attrs  # noqa: E731
+        known = [x for x in impl["diffs"] + impl.get("cdiffs", []) if mine(x)]
+        impl = dict(impl, diffs=[x for x in impl["diffs"] if not mine(x)], cdiffs=[x for x in impl.get("cdiffs", []) if not mine(x)])
+        if known:
+            probs.append((RESERVED_KEY_SIG, "a dict attribute with the key ':serialized:' is not restored: " + "; ".join(known[:2])))
     if impl.get("cdiffs"):
         probs.append(("oracle-json-codec-custom-objects", "json_to_data(custom_objects={name: obj}): " + "; ".join(impl["cdiffs"][:3])))
     if impl["diffs"]:
         probs.append(("oracle-json-codec-alters-attribute", "json_to_data(data_to_json(d)) differs from d: " + "; ".join(impl["diffs"][:3])))
-    if list(mv) != impl["plain"]:
-        probs.append(("codec-plain-vs-pickled", f"stored as plain JSON: impl {impl['plain']} model {list(mv)} for items {[n for n, _ in case['items']]}"))
+    names = [n for n, _ in case["items"]]
+    if [x for n, x in zip(names, mv) if n not in bad_attrs] != [x for n, x in zip(names, impl["plain"]) if n not in bad_attrs]:
+        probs.append(("codec-plain-vs-pickled", f"stored as plain JSON: impl {impl['plain']} model {list(mv)} for items {names}"))
     return probs
 
 
@@ -338,6 +361,7 @@ def model_configs():
     ]
 
 
+LEGACY_SIG = "net-arch-list-of-dict-rewritten-on-load"
 RUNTIME_ATTRIBUTES = {"policy", "device", "env", "replay_buffer", "rollout_buffer", "_vec_normalize_env", "_episode_storage", "_logger", "_custom_logger",
                       "actor", "critic", "critic_target", "actor_target", "q_net", "q_net_target", "log_ent_coef", "ent_coef_optimizer", "ent_coef_tensor",
                       "actor_batch_norm_stats", "critic_batch_norm_stats", "actor_batch_norm_stats_target", "critic_batch_norm_stats_target",
@@ -388,7 +412,7 @@ def gen_model_spec(rng):
           "gamma": rng.choice([0.99, 0.5, 1.0])}
     if algo in ON_POLICY:
         sp["env"] = rng.choice(["discrete", "box"])
-        sp["net_arch"] = rng.choice([None, [], [8], ("tuple", [8, 8]), {"pi": [], "vf": []}, {"pi": [8], "vf": [4]}])
+        sp["net_arch"] = rng.choice([None, [], [8], ("tuple", [8, 8]), {"pi": [], "vf": []}, {"pi": [8], "vf": [4]}, [8, 4], ("listdict", {"pi": [8], "vf": [4]})])
         sp["share_features_extractor"] = rng.choice([None, True, False])
         sp["use_sde"] = sp["env"] == "box" and rng.random() < 0.4
         sp["sde_sample_freq"] = rng.choice([-1, 2])
@@ -434,6 +458,8 @@ def _untag(v):
     """JSON has no tuples: ["tuple", [...]] stands for one"""
     if isinstance(v, (list, tuple)) and len(v) == 2 and v[0] == "tuple":
         return tuple(v[1])
+    if isinstance(v, (list, tuple)) and len(v) == 2 and v[0] == "listdict":
+        return [dict(v[1])]          # the pre-1.8 spelling, still accepted by the on-policy constructors
     return v
 
 
@@ -544,6 +570,7 @@ def _run_model(case, stage):
         policy = "MultiInputPolicy"
         kwargs.update(replay_buffer_class=HerReplayBuffer, replay_buffer_kwargs=dict(n_sampled_goal=2, goal_selection_strategy="future"))
     problems = []
+    membership = None
     d = tempfile.mkdtemp(prefix="c09_")
     try:
         with warnings.catch_warnings():
@@ -619,8 +646,26 @@ def _run_model(case, stage):
                     out.append(f"{k}: missing after load")
                     continue
                 attr_same(k, v, loaded.__dict__[k], out)
+            # known class, precise predicate: policy_kwargs["net_arch"] is a list whose first element is a dict (load() rewrites it)
+            na = model.policy_kwargs.get("net_arch") if isinstance(getattr(model, "policy_kwargs", None), dict) else None
+            if isinstance(na, list) and na and isinstance(na[0], dict):
+                legacy = [x for x in out if x.startswith("policy_kwargs['net_arch']")]
+                out = [x for x in out if x not in legacy]
+                if legacy:
+                    problems.append((LEGACY_SIG, "policy_kwargs['net_arch'] given as [dict(pi=..., vf=...)] is accepted by the constructor but comes back from load() as the dict: " + legacy[0]))
             if out:
                 problems.append(("oracle-attribute-not-restored", "; ".join(out[:4])))
+            # ---- which attributes are in the archive: Model.SaveLoad.excluded, evaluated in Coq, vs the real zip
+            if path_kind != "bytesio":
+                import zipfile
+
+                with zipfile.ZipFile(p + ".zip") as z:
+                    in_data = set(json.loads(z.read("data").decode()).keys())
+                names = [k for k in model.__dict__ if all(32 < ord(ch) < 127 and ch != '"' for ch in k)]
+                qs = lambda xs: coq_list([f'"{x}"%string' for x in xs])  # noqa: E731
+                torch_names = sorted({n.split(".")[0] for n in list(sd_names) + list(var_names)})
+                membership = {"names": names, "in_data": [k in in_data for k in names],
+                              "expr": f"map (excluded {qs(model._excluded_save_params())} {qs(exclude or [])} {qs(include or [])} {qs(torch_names)}) {qs(names)}"}
             # ---- parameters, optimizers, torch variables
             dd = deep_same(model.get_parameters(), loaded.get_parameters(), "get_parameters()")
             if dd:
@@ -678,6 +723,9 @@ def _run_model(case, stage):
             for k in ("num_timesteps", "_n_updates", "batch_size", "policy_kwargs", "seed"):
                 if k in model.__dict__:
                     attr_same(k, model.__dict__[k], l2.__dict__.get(k), outc)
+            na0 = model.policy_kwargs.get("net_arch")
+            if isinstance(na0, list) and na0 and isinstance(na0[0], dict):   # the known class, reported once above
+                outc = [x for x in outc if not x.startswith("policy_kwargs['net_arch']")]
             deep_same(model.get_parameters(), l2.get_parameters(), "get_parameters()", outc)
             if "Stable-Baselines3" not in sysinfo.getvalue():
                 outc.append("print_system_info=True printed nothing about the stored system")
@@ -717,11 +765,18 @@ def _run_model(case, stage):
                 problems.append(("oracle-cannot-continue-training", f"{type(e).__name__}: {e}"))
     finally:
         shutil.rmtree(d, ignore_errors=True)
-    return {"problems": problems, "expr": "true"}
+    return {"problems": problems, "expr": membership["expr"] if membership else "true", "membership": membership}
 
 
 def compare_model(case, impl, mv):
-    return list(impl["problems"])
+    probs = list(impl["problems"])
+    mb = impl.get("membership")
+    if mb:
+        # model: attribute n is in the archive's data iff excluded ... n = false
+        for n, inz, ex in zip(mb["names"], mb["in_data"], mv):
+            if inz == ex:
+                probs.append(("save-archive-membership", f"attribute {n}: in the archive's data = {inz}, Model.SaveLoad.excluded = {ex}"))
+    return probs
 
 
 RUN = {"codec": run_codec, "model": run_model}
@@ -785,13 +840,13 @@ def main():
             hist["models"].append(c["config"] if c["config"] != "random" else c["spec"]["algo"] + ":net_arch=" + json.dumps(c["spec"].get("net_arch")))
             distinct.add(json.dumps(c.get("spec") or c["config"], sort_keys=True) + str(c.get("seed")))
         for sig, msg in probs:
-            is_oracle = sig.startswith("oracle-") or sig == RESERVED_KEY_SIG
+            is_oracle = sig.startswith("oracle-") or sig in (RESERVED_KEY_SIG, LEGACY_SIG)
             full = sig if is_oracle else "model-correspondence-" + sig
             if full in reported:
                 continue
             reported.add(full)
             chk.violation(full, msg, {"case": c, "problems": probs[:6], "correspondence": "harness/c09.py vs Model.JsonCodec.data_to_json"}, found_input=is_oracle)
-        if len(reported - {RESERVED_KEY_SIG}) >= 4:
+        if len(reported - {RESERVED_KEY_SIG, LEGACY_SIG}) >= 4:
             break
     chk.coverage["evaluations"] = len(cases)
     chk.coverage["traces_validated_against_impl"] = len(cases)
